@@ -62,6 +62,23 @@ Theorem C11_covered_sites : forallb named_site_covered expected_covered = true.
 Proof. exact expected_covered_hold. Qed.
 Print Assumptions C11_covered_sites.
 
+(* Every Lock/RLock on an element of an array of mutexes (labelmap's indexMu shards; the table
+   is regenerated from every function of the packages that hold the sites): all users of one array
+   select the element by the same expression of the guarded id.  A site that computes the shard
+   differently would not exclude the other critical sections on the same datum although each site,
+   looked at alone, is "covered". *)
+Theorem C11_shard_keys_agree : shard_keys_agree shard_keys = true.
+Proof. exact generated_shard_keys_agree. Qed.
+Print Assumptions C11_shard_keys_agree.
+
+(* storage/badger: the versioned Put and Delete of one key are exactly one write transaction each,
+   helper methods included (table badger_txns of Gen/Locks.v): what justifies modelling them as one
+   critical section, and what makes "value and tombstone change together" hold under concurrency
+   and under a crash. *)
+Theorem C11_single_key_mutation_is_one_transaction : single_txn badger_txns = true.
+Proof. exact generated_single_txn. Qed.
+Print Assumptions C11_single_key_mutation_is_one_transaction.
+
 (* Any number of concurrent requests, in any mix, at sites the table shows covered by the same
    mutex (for instance cleaves and label-index changes of one body): every accepted complete
    schedule equals the sequential run in acquisition order. *)
@@ -124,3 +141,10 @@ Proof. vm_compute. repeat split. eexists. split; reflexivity. Qed.
 (* the table has sites of both kinds in the current source *)
 Example C11_table_has_covered_site : existsb site_covered lock_table = true.
 Proof. vm_compute. reflexivity. Qed.
+
+(* the two generated obligations are not vacuous and can fail *)
+Example C11_shard_keys_nonempty :
+  shard_keys <> [] /\
+  shard_keys_agree [("f", "mu", "_ % n"); ("g", "mu", "(_ ^ (_ >> 32)) % n")] = false /\
+  single_txn [("Put", 2, 1)]%nat = false /\ badger_txns <> [].
+Proof. vm_compute. repeat split; discriminate. Qed.
